@@ -5,5 +5,5 @@ CONSTANTS Families = {"free5", "full4", "focus7", "nop4", "db4", "incl4"}
  Fixed = {}
 INIT Init
 NEXT Next
-INVARIANTS InvAll Dump
+INVARIANTS InvAllDump
 CHECK_DEADLOCK FALSE
